@@ -578,7 +578,7 @@ theorem itemScoreT_fast (explicit : Bool) (minN maxN : Nat) (r col : List Q) (si
 /-- **the slow path is the model's aggregate over the `max_nbrs` most similar** — numerator and denominator range over the same
     truncated neighbourhood -/
 theorem itemScoreT_slow (explicit : Bool) (minN maxN : Nat) (r col : List Q) (size : Nat) (hr : r.length = col.length)
-    (h2 : maxN < size) :
+    (h1 : minN ≤ size) (h2 : maxN < size) :
     itemScoreT explicit minN maxN r col size = aggregate explicit ((sortBy leDesc (denseNbrs r col)).take maxN) := by
   have hnf : ¬ size ≤ maxN := by omega
   rw [aggregate_eq_divQ, ← topk_nbrs r col maxN]
@@ -597,14 +597,27 @@ theorem itemScoreT_slow (explicit : Bool) (minN maxN : Nat) (r col : List Q) (si
     simp only [takeIdx, List.map_map, List.zipWith_map, List.zipWith_self]
     apply List.map_congr_left; intro j hj
     simp only [Function.comp_apply]; rw [(denseNbrs_getD r col j).1, (denseNbrs_getD r col j).2 (hin j hj)]
-  simp only [itemScoreT, hnf, decide_false, Bool.and_false, Bool.false_eq_true, if_false, Bool.not_false, if_true]
+  simp only [itemScoreT, hnf, h1, decide_false, decide_true, Bool.and_false, Bool.false_eq_true, if_false, Bool.not_false, Bool.and_true, if_true]
   rw [hp, hs]
 
-/-- a neighbourhood with fewer than `min_nbrs` stored entries (that fits within `max_nbrs`) gets no score -/
-theorem itemScoreT_too_few (explicit : Bool) (minN maxN : Nat) (r col : List Q) (size : Nat) (h1 : size < minN) (h2 : size ≤ maxN) :
+/-- **a neighbourhood with fewer than `min_nbrs` stored entries gets no score** — whether or not it exceeds `max_nbrs` (the slow path
+    used to score it; repaired by `fix:` in `/repo`) -/
+theorem itemScoreT_too_few (explicit : Bool) (minN maxN : Nat) (r col : List Q) (size : Nat) (h1 : size < minN) :
     itemScoreT explicit minN maxN r col size = none := by
   have : ¬ minN ≤ size := by omega
-  simp [itemScoreT, this, h2]
+  simp [itemScoreT, this]
+
+/-- the dispatch is the model's `itemScoreImpl`: nothing below the minimum, the whole neighbourhood when it fits, the `max_nbrs` most
+    similar otherwise -/
+theorem itemScoreT_eq (explicit : Bool) (minN maxN : Nat) (r col : List Q) (size : Nat) (hr : r.length = col.length) :
+    itemScoreT explicit minN maxN r col size =
+      (if size < minN then none else if size ≤ maxN then aggregate explicit (denseNbrs r col)
+       else aggregate explicit ((sortBy leDesc (denseNbrs r col)).take maxN)) := by
+  by_cases h1 : size < minN
+  · simp [h1, itemScoreT_too_few explicit minN maxN r col size h1]
+  · by_cases h2 : size ≤ maxN
+    · simp [h1, h2, itemScoreT_fast explicit minN maxN r col size hr (by omega) h2]
+    · simp [h1, h2, itemScoreT_slow explicit minN maxN r col size hr (by omega) (by omega)]
 
 #print axioms simRowT_eq
 #print axioms simBlocksT_eq
